@@ -147,6 +147,7 @@ def rules(fx, rep):
     # ---- the only reused scratch state: wNAF context buffers are emptied before refill
     from props import c02
     c02.rule_buffers(fx, rep)
+    c02.rule_staging(fx, rep)
     # ---- prepared elements
     from props import c03
     c03.rule_prepared_types(fx, rep)
